@@ -114,6 +114,44 @@ theorem conv_inv {U V : Sys} (hU : U.valid = true) (hV : V.valid = true) (d : Di
 theorem conv_pos {U V : Sys} (hU : U.valid = true) (hV : V.valid = true) (d : Dim) :
     0 < convFactor U V d := convFactor_pos hU hV d
 
+/-! ### Exponents far outside the everyday range (mol¹³, fm⁻²¹, nm³⁶)
+
+The property quantifies over *all* integer dimension vectors.  The factor of a large exponent is determined by the
+factors of small ones (`conv_factor_dim_add`, `conv_factor_dim_smul`): it is a power of the per-unit ratio
+`src/dst`, never a quotient of two separately raised scales (which leave every bounded number range long before the
+ratio does).  A base on which source and destination agree contributes nothing, whatever its exponent. -/
+
+/-- the factor of a sum of dimension vectors is the product of the factors -/
+theorem conv_factor_dim_add {U V : Sys} (hU : U.valid = true) (hV : V.valid = true) (d e : Dim) :
+    convFactor U V (d.add e) = convFactor U V d * convFactor U V e := by
+  have h1 : U.sSpace / V.sSpace ≠ 0 := div_ne_zero (Sys.sSpace_ne hU) (Sys.sSpace_ne hV)
+  have h2 : U.sTime / V.sTime ≠ 0 := div_ne_zero (Sys.sTime_ne hU) (Sys.sTime_ne hV)
+  have h3 : U.sQty / V.sQty ≠ 0 := div_ne_zero (Sys.sQty_ne hU) (Sys.sQty_ne hV)
+  simp only [convFactor, Dim.add, zpow_add₀ h1, zpow_add₀ h2, zpow_add₀ h3]
+  ac_rfl
+
+/-- the factor of `n·d` is the `n`-th power of the factor of `d` (any integer `n`, also negative) -/
+theorem conv_factor_dim_smul (U V : Sys) (n : Int) (d : Dim) :
+    convFactor U V (Dim.smul n d) = (convFactor U V d) ^ n := by
+  simp only [convFactor, Dim.smul, mul_zpow, ← zpow_mul, mul_comm n]
+
+/-- a base on which source and destination carry the same unit contributes nothing, whatever its exponent:
+the factor of (n, b, c) is the factor of (0, b, c) -/
+theorem conv_factor_same_base {U V : Sys} (hU : U.valid = true) (d : Dim) (n : Int) :
+    (U.space = V.space → convFactor U V ⟨n, d.time, d.qty⟩ = convFactor U V ⟨0, d.time, d.qty⟩) ∧
+    (U.time = V.time → convFactor U V ⟨d.space, n, d.qty⟩ = convFactor U V ⟨d.space, 0, d.qty⟩) ∧
+    (U.qty = V.qty → convFactor U V ⟨d.space, d.time, n⟩ = convFactor U V ⟨d.space, d.time, 0⟩) := by
+  refine ⟨fun h => ?_, fun h => ?_, fun h => ?_⟩
+  · have : U.sSpace / V.sSpace = 1 := by
+      rw [show V.sSpace = U.sSpace by simp [Sys.sSpace, h]]; exact div_self (Sys.sSpace_ne hU)
+    simp [convFactor, this]
+  · have : U.sTime / V.sTime = 1 := by
+      rw [show V.sTime = U.sTime by simp [Sys.sTime, h]]; exact div_self (Sys.sTime_ne hU)
+    simp [convFactor, this]
+  · have : U.sQty / V.sQty = 1 := by
+      rw [show V.sQty = U.sQty by simp [Sys.sQty, h]]; exact div_self (Sys.sQty_ne hU)
+    simp [convFactor, this]
+
 /-- validity hypothesis on a conversion target: the object forms carry a valid system (an invariant
 of `UnitsSystem`, whose setters check the symbol); text and dict forms are validated by the code. -/
 def _root_.Strengths.Target.wf : Target → Prop
@@ -251,6 +289,21 @@ example : convFactor ⟨"dm", "s", "mol"⟩ ⟨"µm", "s", "molecule"⟩ ⟨-3, 
   simp only [convFactor, h1, h2, h3, h4, h5, h6]
   norm_num [zpow_ofNat]
 
-example : parseUnits "km/h" = .ok ⟨⟨"km", "h", "molecule"⟩, ⟨1, -1, 0⟩⟩ := by decide +kernel
+/-- a large exponent: mol¹³ → mmol¹³ is 10³⁹ exactly (Avogadro's number cancels; (6.02…·10²³)¹³ is never formed),
+and mol¹³ → mol¹³ is 1 -/
+example : convFactor ⟨"µm", "s", "mol"⟩ ⟨"µm", "s", "mmol"⟩ ⟨0, 0, 13⟩ = 10 ^ 39 ∧
+    convFactor ⟨"µm", "s", "mol"⟩ ⟨"µm", "s", "mol"⟩ ⟨0, 0, 13⟩ = 1 := by
+  have h3 : (⟨"µm", "s", "mol"⟩ : Sys).sTime = 1 := by decide +kernel
+  have h4 : (⟨"µm", "s", "mmol"⟩ : Sys).sTime = 1 := by decide +kernel
+  have h1 : (⟨"µm", "s", "mol"⟩ : Sys).sSpace = 1/1000000 := by decide +kernel
+  have h2 : (⟨"µm", "s", "mmol"⟩ : Sys).sSpace = 1/1000000 := by decide +kernel
+  have h5 : (⟨"µm", "s", "mol"⟩ : Sys).sQty = 602214076000000000000000 := by decide +kernel
+  have h6 : (⟨"µm", "s", "mmol"⟩ : Sys).sQty = 602214076000000000000 := by decide +kernel
+  constructor
+  · simp only [convFactor, h1, h2, h3, h4, h5, h6]
+    norm_num [zpow_ofNat]
+  · exact conv_id (by decide +kernel) _
+
+example : parseUnits "km/h" =.ok ⟨⟨"km", "h", "molecule"⟩, ⟨1, -1, 0⟩⟩ := by decide +kernel
 
 end Strengths.C06
